@@ -423,6 +423,124 @@ Definition CyclicSet (nodes : list string) (edges : list (string * string)) (S :
 (* =====================================================================================================
    Part 5 — one type for everything that is probed on the real code
    ===================================================================================================== *)
+(* =====================================================================================================
+   Part 4b — option values as the strings the caller passes (None = Python None)
+   base_backend.py:_validate_solver `solver not in self.SUPPORTED_SOLVERS`; the if-chains of `_solve` (base 694-706,
+   jax 221-241) and is_integration_adaptive compare with `==`; computegraph.py:233-250 selects the backend class by
+   an if-chain whose else-branch is the numpy backend; float_precision is handed to numpy.dtype; `method=` to
+   scipy.integrate.solve_ivp.
+   ===================================================================================================== *)
+Inductive optkind := OSolver (b : backend) | OBackend | OPrecision | OMethod.
+Definition optval := option string.
+Definition str_is (v : optval) (s : string) : bool := match v with Some x => String.eqb x s | None => false end.
+Definition method_name (m : method) : string :=
+  match m with MEuler => "euler" | MHeun => "heun" | MScipy => "scipy" | MDiffrax => "diffrax" end.
+Definition solver_names (b : backend) : list string :=
+  match b with
+  | BDefault | BFortran => ["euler"; "heun"; "scipy"]
+  | BTorch => ["euler"; "scipy"]
+  | BJax => ["euler"; "heun"; "scipy"; "diffrax"]
+  end.
+(* validation and dispatch are the SAME relation on strings: membership by ==, comparison by == *)
+Definition validate_solver_str (b : backend) (v : optval) : bool :=
+  match v with Some s => mem s (solver_names b) | None => false end.
+Definition solve_dispatch_str (b : backend) (v : optval) : method :=
+  match b with
+  | BJax => if str_is v "diffrax" then MDiffrax else if str_is v "scipy" then MScipy
+            else if str_is v "euler" then MEuler else MHeun
+  | _ => if str_is v "euler" then MEuler else if str_is v "heun" then MHeun else MScipy
+  end.
+Definition is_integration_adaptive_str (v : optval) : bool := negb (str_is v "euler" || str_is v "heun").
+(* what the string asks for *)
+Definition requested_method (v : optval) : option method :=
+  if str_is v "euler" then Some MEuler else if str_is v "heun" then Some MHeun
+  else if str_is v "scipy" then Some MScipy else if str_is v "diffrax" then Some MDiffrax else None.
+Definition method_implemented (b : backend) (m : method) : bool :=
+  match m, b with
+  | MEuler, _ | MScipy, _ => true
+  | MHeun, BTorch => false
+  | MHeun, _ => true
+  | MDiffrax, BJax => true
+  | MDiffrax, _ => false
+  end.
+Definition solver_of_string (s : string) : solver :=
+  if String.eqb s "euler" then SEuler else if String.eqb s "heun" then SHeun
+  else if String.eqb s "scipy" then SScipy else if String.eqb s "diffrax" then SDiffrax else SOther.
+
+(* backend selection *)
+Inductive bclass := CBase | CTorch | CJax | CFortran | CJulia | CMatlab.
+Definition bclass_name (c : bclass) : string :=
+  match c with CBase => "BaseBackend" | CTorch => "TorchBackend" | CJax => "JaxBackend" | CFortran => "FortranBackend"
+  | CJulia => "JuliaBackend" | CMatlab => "MatlabBackend" end.
+Definition select_backend (v : optval) : bclass :=
+  match v with
+  | None => CBase
+  | Some s => if String.eqb s "torch" then CTorch else if String.eqb s "jax" then CJax
+              else if String.eqb s "fortran" then CFortran else if String.eqb s "julia" then CJulia
+              else if String.eqb s "matlab" then CMatlab else CBase
+  end.
+(* the names the documentation of run / get_run_func lists ('default' or 'numpy', 'torch', 'jax', 'fortran', 'julia',
+   'matlab'; the parameter defaults to None) *)
+Definition documented_backend (v : optval) : option bclass :=
+  match v with
+  | None => Some CBase
+  | Some s => if String.eqb s "torch" then Some CTorch else if String.eqb s "jax" then Some CJax
+              else if String.eqb s "fortran" then Some CFortran else if String.eqb s "julia" then Some CJulia
+              else if String.eqb s "matlab" then Some CMatlab
+              else if String.eqb s "default" || String.eqb s "numpy" then Some CBase else None
+  end.
+(* ONE-LINE MODEL SWITCH (read by harness/c20.py): false = the code as it is (finding F5: a backend name that is not one
+   of the documented ones — 'Torch', 'JAX', 'jaxx', 'tensorflow' — silently selects the numpy backend);
+   true = the code with /verif/fixes/proposed_fix_C20_F5.diff (PyRatesException). *)
+Definition fixed_F5 : bool := false.
+Definition backend_result (fixed : bool) (v : optval) : result :=
+  match select_backend v with
+  | CJulia => Err EPyRates               (* _validate_backend_args: julia_path missing *)
+  | CMatlab => Err EOther                (* the matlab engine is not installed here: ModuleNotFoundError *)
+  | CBase => match documented_backend v with
+             | None => if fixed then Err EPyRates else Ok
+             | Some _ => Ok end
+  | _ => Ok
+  end.
+(* numpy.dtype(float_precision) for the names the generator uses *)
+Definition dtype_of (v : optval) : option string :=
+  match v with
+  | None => None
+  | Some s => if String.eqb s "float64" || String.eqb s "double" || String.eqb s "float" then Some "float64"
+              else if String.eqb s "float32" then Some "float32"
+              else if String.eqb s "float16" then Some "float16" else None
+  end.
+Definition scipy_methods : list string := ["RK45"; "RK23"; "DOP853"; "Radau"; "BDF"; "LSODA"].
+Definition scipy_method_of (v : optval) : option string :=
+  match v with Some s => if mem s scipy_methods then Some s else None | None => None end.
+
+Definition option_result_gen (fixed5 : bool) (k : optkind) (v : optval) : result :=
+  match k with
+  | OSolver b => if validate_solver_str b v then Ok else Err EPyRates
+  | OBackend => backend_result fixed5 v
+  | OPrecision => match dtype_of v with Some _ => Ok | None => Err EOther end
+  | OMethod => match scipy_method_of v with Some _ => Ok | None => Err EOther end
+  end.
+Definition option_result := option_result_gen fixed_F5.
+(* what runs when the request is accepted *)
+Definition option_effect (k : optkind) (v : optval) : option string :=
+  match k with
+  | OSolver b => Some (method_name (solve_dispatch_str b v))
+  | OBackend => Some (bclass_name (select_backend v))
+  | OPrecision => dtype_of v
+  | OMethod => scipy_method_of v
+  end.
+(* what the value asks for (None: it is not a value this option has) *)
+Definition option_requested (k : optkind) (v : optval) : option string :=
+  match k with
+  | OSolver b => match requested_method v with
+                 | Some m => if method_implemented b m then Some (method_name m) else None
+                 | None => None end
+  | OBackend => option_map bclass_name (documented_backend v)
+  | OPrecision => dtype_of v
+  | OMethod => scipy_method_of v
+  end.
+
 (* a model with one plain `delay` edge and one `delay`+`spread` edge from two different source variables
    (`first_plain`: the plain-delay edge is processed first).  One ring buffer in the network is enough for
    `_uses_edge_delay_buffer`, so the guards treat it like DDiscrete; the vectorized compilation of this probe model
@@ -455,7 +573,8 @@ Inductive probe :=
   | POutputs (net : network) (outs : list path)
   | PNodeValue (net : network) (p : path)
   | POpGraph (ops : list opdecl)
-  | PHier (k : hkind) (depth : nat) (hnet : hnetwork) (p : path).
+  | PHier (k : hkind) (depth : nat) (hnet : hnetwork) (p : path)
+  | POption (k : optkind) (v : optval).
 
 Definition impl (p : probe) : result :=
   match p with
@@ -474,6 +593,7 @@ Definition impl (p : probe) : result :=
   | PNodeValue net p => node_value net p
   | POpGraph ops => check_op_graph ops
   | PHier k depth hnet p => hier_result k depth hnet p
+  | POption k v => option_result k v
   end.
 
 Definition Path3 (net : network) (p : path) : Prop := Present net p /\ List.length p = 3.
@@ -504,6 +624,8 @@ Definition WellFormed (p : probe) : Prop :=
       | HNodeValue => NodeValueTarget (subnet hnet (firstn depth p)) (skipn depth p)
       | _ => Path3 (subnet hnet (firstn depth p)) (skipn depth p)
       end
+  | POption k v =>               (* the value is one the option has, and what runs is what it asks for *)
+      option_requested k v <> None /\ option_effect k v = option_requested k v
   end.
 Definition path3b (net : network) (p : path) : bool := presentb net p && Nat.eqb (List.length p) 3.
 Definition node_value_targetb (net : network) (p : path) : bool :=
@@ -530,6 +652,11 @@ Definition wellformedb (p : probe) : bool :=
       | HNodeValue => node_value_targetb (subnet hnet (firstn depth p)) (skipn depth p)
       | _ => path3b (subnet hnet (firstn depth p)) (skipn depth p)
       end
+  | POption k v =>
+      match option_requested k v, option_effect k v with
+      | Some r, Some e => String.eqb e r
+      | _, _ => false
+      end
   end.
 
 (* representation invariant of the probe (dictionary keys are unique) *)
@@ -555,7 +682,13 @@ Definition guard_node_value_not_circuit (p : probe) : bool :=
   match p with
   | PHier HNodeValue depth hnet pa => fixed_F4 || negb (too_short depth pa && names_circuit hnet (node_part pa))
   | _ => true end.
-Definition guard (p : probe) : bool := guard_path_not_attr p && guard_node_value_not_circuit p.
+(* F5: a backend name is one of the documented ones *)
+Definition guard_backend_documented (p : probe) : bool :=
+  match p with
+  | POption OBackend v => fixed_F5 || match documented_backend v with Some _ => true | None => false end
+  | _ => true end.
+Definition guard (p : probe) : bool :=
+  guard_path_not_attr p && guard_node_value_not_circuit p && guard_backend_documented p.
 
 (* what the property demands of an observed outcome: a request that is not well-formed must not return quietly;
    a warning is enough for an input / update_var addressed to a missing variable, and for a node-level value
